@@ -73,13 +73,23 @@ def run(pid, tier, seed):
         os.makedirs(d)
         for form in forms:
             shutil.copyfile(src + form, os.path.join(d, "k.evtx" + form))
+        # the event log as a tar member, under a short path and under one beyond the 100-byte name field
+        import tarfile
+        evb = open(src, "rb").read()
+        for tform, member in ((":tar-short", "logs/k.evtx"),
+                              (":tar-long", "evidence/HOST-WIN11-LAB/C/Windows/System32/winevt/Logs/Microsoft-Windows-Kernel-PnP%4Configuration.evtx")):
+            with open(os.path.join(d, "k" + tform.replace(":", "_") + ".tar"), "wb") as f:
+                f.write(gen.tar_bytes([(member, evb)], fmt=tarfile.GNU_FORMAT))
+            for (a, b) in wins[:1] + rng.sample(wins[1:], 3 if tier == "quick" else 20):
+                jobs.append((tform, a, b, gen.WINDOW_SPELLINGS[len(jobs) % len(gen.WINDOW_SPELLINGS)] if (a or b) else gen.WINDOW_SPELLINGS[0]))
 
         def do(ij):
             i, (form, a, b, sp) = ij
             argv = ["--color", "never"] + gen.window_argv(a, b, sp)
             tmp = os.path.join(sc, "tmp%d" % i)
             os.makedirs(tmp)
-            rr = common.run_s4(argv + ["k.evtx" + form], cwd=d, trace=(a is None and b is None), tmpdir=tmp, timeout=120,
+            fname = ("k" + form.replace(":", "_") + ".tar") if form.startswith(":") else ("k.evtx" + form)
+            rr = common.run_s4(argv + [fname], cwd=d, trace=(a is None and b is None), tmpdir=tmp, timeout=120,
                                tz_args=False)
             left = os.listdir(tmp)
             shutil.rmtree(tmp, ignore_errors=True)
